@@ -26,7 +26,7 @@ P = {
          "Not proved: graphs with tuple cycles; equality of the graph-level specification with the model-level definition (they differ exactly at K-C04-operands). Known findings K-C04-operands and K-WG-cycles delimit where the unmodified code departs from the statement; inner map orders of AssignWeights are sampled, not driven."),
  "C05": ("Same model as C04; theorems in Properties/C05.v: the self-loop rule, refutation witnesses on cyclic models, and the EQUIVALENCE on graphs without cycles for every start order — assignment succeeds iff Spec/GraphWeights.accepts holds of every start node (operand edges present, every edge to a type/wildcard or to an accepted node with a non-empty weight map, intersections keep a common type), soundness and completeness with AssignWeights' own fuel; hypotheses and predicate are evaluated by the extracted model per run and compared with the implementation's verdict per start order; well-foundedness computed on the model (tuple-free cycles, constrained cycles, builder conditions, empty intersections, relations without terminal type) as oracle for the verdict under every explicit start order.",
          "Not proved: the equivalence on graphs with cycles (refuted there: K-WG-cycles). Known findings K-WG-cycles and K-C04-operands."),
- "C06": ("Same model as C04: the only schedule (start order) is an argument of the model; theorems in Properties/C06.v (independence of the order of type definitions; on graphs without cycles the weights do not depend on the start order at all — both orders give the order-free specification); all outcomes of a model (explicit orders, repeated unhooked Build, permuted type definitions) compared.",
+ "C06": ("Same model as C04: the only schedule (start order) is an argument of the model; theorems in Properties/C06.v (independence of the order of type definitions; on graphs without cycles the weights do not depend on the start order at all — both orders give the order-free specification); the value semantics the model gives to wildcard lists and weight maps is tied to the code by Gen/Sites.v (every store into a node or edge, regenerated per run; theorem: none shares another object's list or map); all outcomes of a model (explicit orders, repeated unhooked Build, permuted type definitions) compared; histories: one builder object building sequences of different models, sequentially and concurrently, against a fresh builder per model.",
          "Inner map iteration orders and concurrency are sampled by repetition; known finding K-WG-cycles."),
  "C07": ("Coq transcription of TransformModuleFilesToModel (Model/Merge.v) over the parser model; theorems in Properties/C07.v, among them THE EQUIVALENCE: for every list of module files as the parser delivers them (decidable well-formedness, evaluated per run) merge succeeds iff the list is conflict-free in the order-free sense of Spec/MergeSpec.v, and on success returns the declared types in file order with exactly the contributed relation names and the attributed conditions (Proofs/MergeIff.v), and THE CONTENT: every declared relation reads back with its rewrite unchanged, a definition's relation with its metadata, an extension's relation with the extending file, every type with the module and file of its definition, nothing else present (Proofs/MergeContent.v); the decidable form of the specification is evaluated by the extracted model on every generated set and compared with the implementation's verdict; correspondence on generated module sets with a catalogue of injected conflicts; "
          "conflict-freedom and the exact attributed union computed from the generator's syntax trees as oracle.",
@@ -37,7 +37,7 @@ P = {
          "ANTLR semantics assumed as in C03."),
  "C10": ("Theorems in Properties/C10.v about Model/WGraph.wbuild (one node per label, one operator node per operator occurrence, computed-edge rule, totality, the built graph is unweighted with every edge filed under its source); the built graph of the implementation is compared with the extracted model (nodes, ordered edges, kinds, labels, conditions) and decoded against the model by an independent structure check; input model unchanged.",
          "Operator node names are canonicalised structurally (ULIDs are random)."),
- "C11": ("Same model as C04 (wildcard propagation transcribed); theorems in Properties/C11.v: on graphs without cycles, for every start order, the list of a node holds exactly the public types whose wildcard node is reachable (inductive reachability), each edge carries its target's set, and no list has duplicates; the executable form (spec_wildcards) is compared with the implementation's lists per run; wildcard lists of every node and edge against reachability of T:* nodes in the built graph, per explicit start order.",
+ "C11": ("Same model as C04 (wildcard propagation transcribed); theorems in Properties/C11.v: on graphs without cycles, for every start order, the list of a node holds exactly the public types whose wildcard node is reachable (inductive reachability), each edge carries its target's set, and no list has duplicates; the value semantics the model gives to these lists is tied to the code by Gen/Sites.v (every store of a list or map into a node or edge, regenerated from weighted_graph*.go per run; theorem: none stores another object's list as it is — defect F13 was four such stores); the executable form (spec_wildcards) is compared with the implementation's lists per run; wildcard lists of every node and edge against reachability of T:* nodes in the built graph, per explicit start order.",
          "Known finding K-WG-cycles delimits the unproved cyclic part."),
  "C12": ("Model/Merge.merge takes no iteration-order argument (after repair F5); theorems in Properties/C12.v: conflict-freedom is invariant under permutation of the files, hence permuting the list never changes whether the merge succeeds (for every list), and on success the permuted list yields the same model up to the order of type definitions and map enumeration: same schema, permuted type names, identical module/file/rewrite/metadata/condition readings (Proofs/MergeContent.v); each list merged repeatedly in one process, all permutations of small lists, correspondence per permutation.",
          "The well-formedness of parser output is itself a theorem (every list of files with distinct names). Not proved: that a successful merge of a permuted list returns the same types up to order (observed per run). Go map order is sampled by repetition."),
